@@ -224,6 +224,12 @@ func (p *Point) AffineY() (*BaseFieldElement, error) {
 	w.Sub(&p.V.X, &p.V.T)
 	ok := wInv.Inv(&w)
 	if ok == 0 {
+		if u.IsZero() == 1 {
+			// the point of order two: (u, v) = (0, 0)
+			var zero BaseFieldElement
+			zero.V.SetZero()
+			return &zero, nil
+		}
 		return nil, curves.ErrFailed.WithMessage("cannot get affine y")
 	}
 
